@@ -584,6 +584,38 @@ let run_resolve (x : sexp) : string =
       (match Resolve.check_call (List.map vtype_of ps) (List.map vtype_of args) with [] -> "ok" | es -> "err " ^ codes_to_string es)
   | _ -> failwith "resolve"
 
+(* ---- control-flow lowering (Model/Cfg.v) ---- *)
+let rec cfg_stmt (s : sexp) : Cfg.stmt =
+  match s with
+  | L [A "a"; A k] -> Cfg.SAct (num k)
+  | L [A "g"; A l] -> Cfg.SGoto (num l)
+  | L [A "l"; A l] -> Cfg.SLabel (num l)
+  | L [A "if"; A c; t] -> Cfg.SIf (num c, cfg_stmt t, None)
+  | L [A "if"; A c; t; e] -> Cfg.SIf (num c, cfg_stmt t, Some (cfg_stmt e))
+  | L (A "b" :: ss) -> Cfg.SBlock (List.map cfg_stmt ss)
+  | L [A "loop"] -> Cfg.SLoop
+  | _ -> failwith "cfg stmt"
+let cfg_tag (t : Cfg.tag) : string = Cfg.(match t with
+  | Entry -> "entry" | Looped -> "looped-block" | AfterLooped -> "after-looped-block"
+  | Unreachable -> "unreachable-after-goto" | Lbl l -> "L" ^ string_of_n l
+  | Then_ -> "then" | Else_ -> "else" | After -> "after")
+let run_cfg (x : sexp) : string =
+  match x with
+  | L (A "body" :: ss) ->
+      let body = List.map cfg_stmt ss in
+      let acc = if Cfg.accepted body then "accepted" else "not-accepted" in
+      (match Cfg.lower_body body with
+       | None -> acc ^ " none"
+       | Some g ->
+           let show ((t, acts), term) =
+             cfg_tag t ^ " [" ^ String.concat "," (List.map string_of_n acts) ^ "] " ^
+             Cfg.(match term with
+               | TBr b -> "br:" ^ string_of_n b
+               | TCondBr (c, a, b) -> "cbr:" ^ string_of_n c ^ ":" ^ string_of_n a ^ ":" ^ string_of_n b
+               | TRet -> "ret" | TNone -> "NONE") in
+           acc ^ (if Cfg.cfg_wfb g then " wf " else " NOT-WF ") ^ String.concat ";" (List.map show (Cfg.cfg_view g)))
+  | _ -> failwith "cfg"
+
 let dispatch (stream : string) (x : sexp) : string =
   match stream with
   | "labels" -> run_labels x
@@ -597,6 +629,7 @@ let dispatch (stream : string) (x : sexp) : string =
   | "linkage" -> run_linkage x
   | "cli" -> run_cli x
   | "resolve" -> run_resolve x
+  | "cfg" -> run_cfg x
   | "lex-alpha" -> run_lex_alpha x
   | "lex-delta" -> run_lex_delta x
   | "tables" -> run_tables (match x with A n -> int_of_string n | _ -> 64)
